@@ -1,41 +1,46 @@
 /*
- * C19/qcow2_layout: the whole qcow2 writer, misc/e2image.c:output_qcow2_meta_data_blocks(), REAL down to
- * write()/llseek (initialize_qcow2_image, init_refcount, init_l1_table, init_l2_cache, write_header,
- * update_refcount, add_l2_item, get_free_table, flush_l2_cache, put_used_table, sync_refcount,
- * generic_write, seek_set/seek_relative, check_zero_block, free_qcow2_image) on a scaled geometry:
- *   block = cluster = 32 bytes (cluster_bits 5): 4 entries per L2 table, 16 refcounts per refcount block
- *   (a new refcount block every 16 clusters), 4 refcount blocks per refcount table cluster (64 clusters:
- *   the image stays below that, so the known init_refcount sizing defect is not touched).
- * Filesystem of NBLK blocks; which are imaged is symbolic, which of them are all-zero is a per-query mask.
- *
- * Default (light) model: the write() stub records which clusters of the image file each write touches.
- *   Claim: injective allocation -- no cluster of the file is written twice (header, L1, refcount table, each
- *   refcount block, each L2 table and each data cluster own their clusters exclusively).
- * -DREADER: the image file is a word array; an independent reader of the qcow2 format (QEMU
- *   docs/interop/qcow2.txt) checks over the final file: no word written twice; every written cluster has
- *   refcount exactly 1 and no cluster a refcount other than 0 or 1; guest block b is mapped (L1[b / 4] -> L2
- *   table, L2[b % 4] -> cluster, both COPIED, big endian) iff it is imaged and not all-zero, and the cluster
- *   it maps to holds the bytes of block b; header as in harness geom.
+ * C19/qcow2_layout: the per-block step of the qcow2 writer, misc/e2image.c:output_qcow2_meta_data_blocks():
+ * the REAL loop (refcounting of the qcow2 metadata, then per filesystem block: update_refcount, the "new refcount
+ * block" shuffles, add_l2_item / get_free_table with the reservation of the next L2 cluster, the offset bookkeeping,
+ * seek_set) on a scaled geometry:
+ *   block = cluster = 32 bytes (cluster_bits 5): 4 entries per L2 table, 16 refcounts per refcount block (a new
+ *   refcount block every 16 clusters), 4 refcount blocks per refcount table cluster (64 clusters: the image stays
+ *   below that, so the known init_refcount sizing defect is not touched).
+ * Cut to specification stubs (each has its own harness): initialize_qcow2_image (geom; the state it produces for this
+ * geometry is set up on static objects), write_header, generic_write (l2cache/rawout), flush_l2_cache (l2cache),
+ * sync_refcount, free_qcow2_image, check_zero_block.  The stubs feed a model of the image file: per cluster, how often it
+ * was written, by which owner (header, L1, refcount table, refcount block, L2 table, data of block b), and the refcount
+ * the refcount blocks give it (read from the refcount block's bytes at the moment it is written out).
+ * Which blocks are imaged is symbolic under -DACTIVE; which are all-zero is the per-query mask -DZERO.
+ * Claim:
+ *   - injective allocation: no cluster of the image file is written twice (one owner per cluster);
+ *   - every written cluster has refcount exactly 1, no cluster a refcount other than 0 or 1;
+ *   - a data cluster exists for exactly the imaged non-zero blocks; at flush time each L1 slot holds (big endian, COPIED)
+ *     the offset its L2 table is written at, and L2 entry k of slot s points at the data cluster of block 4s + k, or is empty.
+ * Observation (not asserted): with no imaged non-zero block at all flush_l2_cache() aborts on assert(table); excluded by
+ * an assumption because the superblock is always imaged.
  */
 #include "config.h"
 #include "ext2fs/ext2_fs.h"
 #include "ext2fs/ext2fs.h"
-/* STUB: ext2fs_get_mem / get_memzero / get_arrayzero / free_mem as called from e2image.c: separate zeroed static objects
- * handed out by call sequence, with plain pointer assignment (planned hook H3: the library inlines move the pointer with
- * memcpy; with malloc or one byte arena the propositional reduction needs > 10 GB here) */
+/* STUB: ext2fs_get_mem / ext2fs_free_mem as called from e2image.c (the img struct and the block buffer): static objects, plain
+ * pointer assignment (planned hook H3) */
 static errcode_t stub_get_mem(unsigned long size, void *ptr);
-static errcode_t stub_get_array(unsigned long count, unsigned long size, void *ptr);
 static errcode_t stub_free_mem(void *ptr);
 #define ext2fs_get_mem stub_get_mem
-#define ext2fs_get_memzero stub_get_mem
-#define ext2fs_get_arrayzero stub_get_array
 #define ext2fs_free_mem stub_free_mem
+struct ext2_qcow2_image;
+static errcode_t initialize_qcow2_image(int fd, ext2_filsys fs, struct ext2_qcow2_image *image);
+static void write_header(int fd, void *hdr, int hdr_size, int wrt_size);
+static void generic_write(int fd, void *buf, int blocksize, blk64_t block);
+static void flush_l2_cache(struct ext2_qcow2_image *image);
+static int sync_refcount(int fd, struct ext2_qcow2_image *img);
+static void free_qcow2_image(struct ext2_qcow2_image *img);
+static int check_zero_block(char *buf, int blocksize);
 #define main vf_real_main
 #include "misc/e2image.c"
 #undef main
 #undef ext2fs_get_mem
-#undef ext2fs_get_memzero
-#undef ext2fs_get_arrayzero
 #undef ext2fs_free_mem
 #include "env.c"
 #ifndef VF_REPLAY
@@ -50,7 +55,6 @@ char *gettext(const char *m) { return (char *) m; }
 #ifndef NCL
 #define NCL 40		/* BOUND: model file of 40 clusters (worst case of NBLK=16: 9 + 16 + 4 + 4 + 2 = 35) */
 #endif
-#define NW (NCL * CSZ / 8)
 #define NL1 ((NBLK + 3) / 4)
 
 static int vf_bad;
@@ -60,46 +64,167 @@ struct vf_in {
 VF_DECLARE_INPUT(struct vf_in, IN)
 #include "vf_input.inc"
 
-static unsigned long long vf_word[NW];		/* READER: the image file, 8-byte words in file byte order */
-static unsigned char vf_wcnt[NW], vf_ccnt[NCL];
 static long long vf_pos;
 static int vf_dummy_map, vf_dummy_io;
+enum { K_NONE, K_HEADER, K_L1, K_RTABLE, K_RBLOCK, K_L2, K_DATA };
+static unsigned char vf_ccnt[NCL], vf_kind[NCL], vf_dblk[NCL], vf_refcnt[NCL];
+static int vf_flushed, vf_synced, vf_freed, vf_hdr_written;
 
-/* allocation by call sequence (the order in output_qcow2_meta_data_blocks is fixed): separate, typed, zeroed static objects */
+/* the writer's state, as initialize_qcow2_image() lays it out for NBLK blocks of 32 bytes (harness geom decides that function):
+ * header clusters 0-2, L1 table cluster 3, refcount table cluster 4, (gap 5), first L2 table cluster 6, first refcount block 7 */
 static struct ext2_qcow2_image vf_o_img;
 static struct ext2_qcow2_hdr vf_o_hdr;
 static __u64 vf_o_rt[CSZ / 8], vf_o_l1[NL1], vf_o_data[NL1][CSZ / 8];
 static __u16 vf_o_rb[CSZ / 2];
 static struct ext2_qcow2_l2_cache vf_o_cache;
 static struct ext2_qcow2_l2_table vf_o_tab[NL1];
-static char vf_o_hbuf[3 * CSZ], vf_o_buf[CSZ];
+static char vf_o_buf[CSZ];
 static unsigned int vf_nalloc;
 static errcode_t stub_get_mem(unsigned long size, void *ptr)
 {
 	unsigned int k = vf_nalloc++;
-	void *p = NULL;
-	unsigned long want = 0;
-	if (k == 0) { p = &vf_o_img; want = sizeof(vf_o_img); }
-	else if (k == 1) { p = &vf_o_hdr; want = sizeof(vf_o_hdr); }
-	else if (k == 2) { p = vf_o_rt; want = sizeof(vf_o_rt); }
-	else if (k == 3) { p = vf_o_rb; want = sizeof(vf_o_rb); }
-	else if (k == 4) { p = vf_o_l1; want = sizeof(vf_o_l1); }
-	else if (k == 5) { p = &vf_o_cache; want = sizeof(vf_o_cache); }
-	else if (k < 6 + 2 * NL1) {
-		if ((k - 6) % 2 == 0) { p = &vf_o_tab[(k - 6) / 2]; want = sizeof(vf_o_tab[0]); }
-		else { p = vf_o_data[(k - 6) / 2]; want = sizeof(vf_o_data[0]); }
-	}
-	else if (k == 6 + 2 * NL1) { p = vf_o_hbuf; want = sizeof(vf_o_hbuf); }
-	else if (k == 7 + 2 * NL1) { p = vf_o_buf; want = sizeof(vf_o_buf); }
-	if (!p || size != want) {
+	if (k == 0 && size == sizeof(vf_o_img))
+		*(void **) ptr = &vf_o_img;
+	else if (k == 1 && size == CSZ)
+		*(void **) ptr = vf_o_buf;
+	else {
 		vf_bad = 1;
 		return EXT2_ET_NO_MEMORY;
 	}
-	*(void **) ptr = p;
 	return 0;
 }
-static errcode_t stub_get_array(unsigned long count, unsigned long size, void *ptr) { return stub_get_mem(count * size, ptr); }
 static errcode_t stub_free_mem(void *ptr) { *(void **) ptr = NULL; return 0; }
+
+/* STUB: initialize_qcow2_image() (cut; harness geom): the state it produces for this geometry, on static objects */
+static errcode_t initialize_qcow2_image(int fd, ext2_filsys fs, struct ext2_qcow2_image *image)
+{
+	unsigned int i;
+	if (image != &vf_o_img || fs->blocksize != CSZ)
+		vf_bad = 1;
+	image->fd = fd;
+	image->hdr = &vf_o_hdr;
+	image->cluster_size = CSZ;
+	image->cluster_bits = CB;
+	image->l2_size = CSZ / 8;
+	image->l1_size = NL1;
+	image->l1_table = vf_o_l1;
+	image->l1_offset = 3 * CSZ;
+	image->l2_offset = 6 * CSZ;
+	image->refcount.refcount_table = vf_o_rt;
+	image->refcount.refcount_table_offset = 4 * CSZ;
+	image->refcount.refcount_table_clusters = 1;
+	image->refcount.refcount_block_offset = 7 * CSZ;
+	image->refcount.refcount_block = vf_o_rb;
+	image->l2_cache = &vf_o_cache;
+	vf_o_cache.count = vf_o_cache.free = NL1;
+	vf_o_cache.next_offset = 6 * CSZ;
+	for (i = 0; i < NL1; i++) {
+		vf_o_tab[i].data = vf_o_data[i];
+		vf_o_tab[i].next = (i + 1 < NL1) ? &vf_o_tab[i + 1] : NULL;
+	}
+	vf_o_cache.free_head = &vf_o_tab[0];
+	return 0;
+}
+/* no symbolic array index: mark cluster c (found by comparison) as written with the given owner */
+static void vf_touch(long long pos, int kind, unsigned int blk)
+{
+	unsigned int i;
+	if (pos < 0 || (pos & (CSZ - 1)) || pos >= (long long) NCL * CSZ)
+		vf_bad = 1;
+	for (i = 0; i < NCL; i++)
+		if ((long long) i * CSZ == pos) {
+			if (vf_ccnt[i] < 3)
+				vf_ccnt[i]++;
+			vf_kind[i] = kind;
+			vf_dblk[i] = blk;
+		}
+}
+/* reads a refcount block as it is written out: entry e == big-endian 1 gives cluster (index * 16 + e) one reference */
+static void vf_account_refblock(unsigned int table_index)
+{
+	unsigned int e, i;
+	for (e = 0; e < CSZ / 2; e++) {
+		unsigned int v = ((vf_o_rb[e] & 0xff) << 8) | (vf_o_rb[e] >> 8);	/* big endian on a little-endian host */
+		for (i = 0; i < NCL; i++)
+			if (i == table_index * (CSZ / 2) + e)
+				vf_refcnt[i] += v;
+		if (v && table_index * (CSZ / 2) + e >= NCL)
+			vf_bad = 1;
+	}
+}
+/* STUB: write_header() (cut): the header occupies clusters 0..2 */
+static void write_header(int fd, void *hdr, int hdr_size, int wrt_size)
+{
+	(void) fd;
+	if (hdr != &vf_o_hdr || hdr_size != (int) sizeof(struct ext2_qcow2_hdr) || wrt_size != 3 * CSZ)
+		vf_bad = 1;
+	vf_touch(0, K_HEADER, 0); vf_touch(CSZ, K_HEADER, 0); vf_touch(2 * CSZ, K_HEADER, 0);
+	vf_pos = 3 * CSZ;
+	vf_hdr_written++;
+}
+/* STUB: generic_write() (cut; real one in l2cache/rawout): the model file records which cluster is written and what it is:
+ * a refcount block (buffer identity; its content is accounted), a data block (block number), or the L1 table at the end */
+static void generic_write(int fd, void *buf, int blocksize, blk64_t block)
+{
+	if (fd != 7)
+		vf_bad = 1;
+	if (buf == vf_o_rb && blocksize == CSZ) {
+		vf_touch(vf_pos, K_RBLOCK, 0);
+		vf_account_refblock(vf_o_img.refcount.refcount_table_index);
+	} else if (buf == vf_o_buf && blocksize == CSZ && block < NBLK) {
+		if ((unsigned char) vf_o_buf[0] != 0x40 + block)
+			vf_bad = 1;		/* the buffer holds the block just read */
+		vf_touch(vf_pos, K_DATA, (unsigned int) block);
+	} else if (buf == vf_o_l1 && blocksize == NL1 * 8 && vf_pos == 3 * CSZ) {
+		vf_touch(vf_pos, K_L1, 0);
+	} else
+		vf_bad = 1;
+	vf_pos += blocksize;
+}
+/* STUB: flush_l2_cache() (cut; harness l2cache): every table in use is written at its recorded offset; its entries are checked
+ * against the model file: entry k of the table for L1 slot s maps block 4s + k */
+static void flush_l2_cache(struct ext2_qcow2_image *image)
+{
+	struct ext2_qcow2_l2_table *t = image->l2_cache->used_head;
+	unsigned int n, k, i;
+	for (n = 0; n < NL1; n++) {
+		if (n >= image->l2_cache->count - image->l2_cache->free)
+			break;
+		if (!t) { vf_bad = 1; break; }
+		vf_touch((long long) t->offset, K_L2, t->l1_index);
+		/* the L1 slot points at this table */
+		for (i = 0; i < NL1; i++)
+			if (i == t->l1_index)
+				PROP(__builtin_bswap64(vf_o_l1[i]) == (t->offset | (1ULL << 63)), "L1 slot holds (big endian, COPIED) the offset its L2 table is written at");
+		for (k = 0; k < CSZ / 8; k++) {
+			unsigned long long e = __builtin_bswap64(t->data[k]);
+			unsigned int b = t->l1_index * (CSZ / 8) + k;
+			int mapped = 0;
+			for (i = 0; i < NCL; i++)
+				if (e == (((unsigned long long) i * CSZ) | (1ULL << 63)) && vf_kind[i] == K_DATA && vf_dblk[i] == b && vf_ccnt[i] == 1)
+					mapped = 1;
+			if (b < NBLK && ((IN.imaged >> b) & 1) && !((IN.zero >> b) & 1))
+				PROP(mapped, "L2 entry of an imaged block points (big endian, COPIED) at the cluster its data was written to");
+			else
+				PROP(e == 0, "L2 entry of a block that is not imaged (or all-zero) is empty");
+		}
+		t = t->next;
+	}
+	vf_flushed++;
+}
+/* STUB: sync_refcount() (cut): the current refcount block goes to its offset, the refcount table to its cluster */
+static int sync_refcount(int fd, struct ext2_qcow2_image *img)
+{
+	(void) fd;
+	vf_touch(4 * CSZ, K_RTABLE, 0);
+	vf_touch((long long) img->refcount.refcount_block_offset, K_RBLOCK, 0);
+	vf_account_refblock(img->refcount.refcount_table_index);
+	vf_synced++;
+	return 0;
+}
+static void free_qcow2_image(struct ext2_qcow2_image *img) { if (img != &vf_o_img) vf_bad = 1; vf_freed++; }
+/* STUB: check_zero_block() (cut): by the content the read stub produced */
+static int check_zero_block(char *buf, int blocksize) { (void) blocksize; return buf[0] == 0; }
 
 /* STUB: ext2fs_llseek(): position of the model image file */
 ext2_loff_t ext2fs_llseek(int fd, ext2_loff_t offset, int whence)
@@ -113,36 +238,6 @@ ext2_loff_t ext2fs_llseek(int fd, ext2_loff_t offset, int whence)
 	else
 		vf_bad = 1;
 	return vf_pos;
-}
-/* STUB: write(): light model: counts the clusters a write touches; READER: stores 8-byte words and counts them */
-ssize_t write(int fd, const void *buf, size_t n)
-{
-	unsigned int w, i;
-	unsigned long long v;
-	if (fd != 7 || (n & 7) || (vf_pos & 7) || n > 3 * CSZ || vf_pos < 0 || vf_pos + (long long) n > (long long) NW * 8)
-		vf_bad = 1;
-#ifdef READER
-	for (w = 0; w < 3 * CSZ / 8; w++) {
-		if (w * 8 >= n)
-			continue;
-		memcpy(&v, (const char *) buf + w * 8, 8);
-		for (i = 0; i < NW; i++)		/* no symbolic array index */
-			if ((long long) i * 8 == vf_pos + (long long) w * 8) {
-				vf_word[i] = v;
-				if (vf_wcnt[i] < 3)
-					vf_wcnt[i]++;
-			}
-	}
-#else
-	(void) v; (void) buf;
-	for (w = 0; w < 3; w++)
-		for (i = 0; i < NCL; i++)
-			if (w * CSZ < n && (long long) i * CSZ == (vf_pos & ~(long long)(CSZ - 1)) + (long long) w * CSZ)
-				if (vf_ccnt[i] < 3)
-					vf_ccnt[i]++;
-#endif
-	vf_pos += n;
-	return n;
 }
 /* STUB: ext2fs_test_generic_bmap(): membership in meta_block_map = bit of the symbolic mask */
 int ext2fs_test_generic_bmap(ext2fs_generic_bitmap bmap, __u64 arg)
@@ -158,44 +253,15 @@ int ext2fs_test_generic_bmap(ext2fs_generic_bitmap bmap, __u64 arg)
 #endif
 	return (IN.imaged >> arg) & 1;
 }
-/* STUB: io_channel_read_blk64(): block b reads as 32 bytes 0x40+b, or all-zero */
+/* STUB: io_channel_read_blk64(): block b reads as bytes 0x40+b, or all-zero (first byte is enough for the stubs) */
 errcode_t io_channel_read_blk64(io_channel io, unsigned long long blk, int count, void *data)
 {
 	unsigned char *b = data;
-	unsigned int i;
 	if (io != (io_channel) &vf_dummy_io || count != 1 || blk >= NBLK)
 		vf_bad = 1;
-	for (i = 0; i < CSZ; i++)
-		b[i] = ((IN.zero >> blk) & 1) ? 0 : (unsigned char)(0x40 + blk);
+	b[0] = ((IN.zero >> blk) & 1) ? 0 : (unsigned char)(0x40 + blk);
 	return 0;
 }
-
-#ifdef READER
-/* ---- independent reader */
-static unsigned long long ref_word_at(unsigned long long pos)	/* file word at byte offset pos (8-aligned), 0 beyond the model */
-{
-	unsigned int i;
-	unsigned long long r = 0;
-	for (i = 0; i < NW; i++)
-		if ((unsigned long long) i * 8 == pos)
-			r = vf_word[i];
-	return r;
-}
-static unsigned long long ref_be64(unsigned long long v)	/* the 8 file bytes of v as a big-endian number */
-{
-	const unsigned char *p = (const unsigned char *) &v;
-	unsigned long long r = 0;
-	int i;
-	for (i = 0; i < 8; i++)
-		r = (r << 8) | p[i];
-	return r;
-}
-static unsigned int ref_be16_in(unsigned long long v, unsigned int k)	/* k-th 16-bit big-endian field of the word */
-{
-	const unsigned char *p = (const unsigned char *) &v;
-	return (p[2 * k] << 8) | p[2 * k + 1];
-}
-#endif
 
 int main(void)
 {
@@ -234,60 +300,23 @@ int main(void)
 
 	output_qcow2_meta_data_blocks(&fs_s, 7);
 
-	PROP(!vf_bad, "writes are 8-byte aligned, inside the model file, to the image descriptor; allocations in the expected sequence");
-	/* BOUND: main.*: NW words / NCL clusters / NBLK blocks */
-#ifndef READER
-	(void) k;
-	for (c = 0; c < NCL; c++)
-		PROP(vf_ccnt[c] <= 1, "injective allocation: no cluster of the image file is written twice");
-#else
-	{
-	unsigned long long l1_off, rt_off, l1_size, size;
-	for (k = 0; k < NW; k++)
-		PROP(vf_wcnt[k] <= 1, "injective allocation: no part of the image file is written twice");
-
-	/* header */
-	PROP(ref_be64(vf_word[0]) == ((0x514649fbULL << 32) | 2), "header: magic and version 2");
-	size = ref_be64(vf_word[3]);
-	PROP(size == (unsigned long long) NBLK * CSZ && (ref_be64(vf_word[2]) & 0xffffffffULL) == CB, "header: size and cluster_bits");
-	l1_size = (ref_be64(vf_word[4]) & 0xffffffffULL);		/* bytes 36..39 */
-	l1_off = ref_be64(vf_word[5]);
-	rt_off = ref_be64(vf_word[6]);
-	PROP(l1_size == NL1 && l1_off % CSZ == 0 && rt_off % CSZ == 0 && l1_off < rt_off, "header: L1 size, aligned table offsets");
-	PROP((ref_be64(vf_word[7]) >> 32) == 1, "header: one refcount table cluster");
-
-	/* refcounts */
+	PROP(!vf_bad, "callee contracts: cluster-aligned positions inside the model file, known buffers, allocations in sequence");
+	PROP(vf_hdr_written == 1 && vf_flushed == 1 && vf_synced == 1 && vf_freed == 1, "header, L2 flush, refcount sync, cleanup: once each");
+	/* BOUND: main.*: NCL clusters / NBLK blocks */
 	for (c = 0; c < NCL; c++) {
-		unsigned long long rb = ref_be64(ref_word_at(rt_off + 8 * (c / 16)));	/* refcount block of cluster c */
-		unsigned int rc = 0, written = 0;
-		if (rb != 0)
-			rc = ref_be16_in(ref_word_at(rb + 2 * (c % 16) / 8 * 8), (c % 16) % 4);
-		for (k = 0; k < CSZ / 8; k++)
-			if (vf_wcnt[c * (CSZ / 8) + k])
-				written = 1;
-		PROP(rc <= 1, "refcounts are 0 or 1");
-		if (written)
-			PROP(rc == 1 && rb % CSZ == 0, "every written cluster has refcount 1 (in a cluster-aligned refcount block)");
+		PROP(vf_ccnt[c] <= 1, "injective allocation: no cluster of the image file is written twice (one owner per cluster)");
+		PROP(vf_refcnt[c] <= 1, "refcounts are 0 or 1");
+		if (vf_ccnt[c])
+			PROP(vf_refcnt[c] == 1, "every written cluster has refcount 1");
 	}
-	/* mapping */
 	for (b = 0; b < NBLK; b++) {
-		int want = ((IN.imaged >> b) & 1) && !((IN.zero >> b) & 1);
-		unsigned long long l1e = ref_be64(ref_word_at(l1_off + 8 * (b / 4)));
-		unsigned long long l2e = 0, t = l1e & ~(3ULL << 62);
-		if (t != 0)
-			l2e = ref_be64(ref_word_at(t + 8 * (b % 4)));
-		if (want) {
-			unsigned long long d = l2e & ~(3ULL << 62);
-			PROP((l1e >> 62) == 2 && t % CSZ == 0 && t != 0, "imaged block: L1 slot points (COPIED, aligned) to an L2 table");
-			PROP((l2e >> 62) == 2 && d % CSZ == 0 && d != 0, "imaged block: L2 entry points (COPIED, aligned) to a data cluster");
-			for (k = 0; k < CSZ / 8; k++)
-				PROP(ref_word_at(d + 8 * k) == 0x0101010101010101ULL * (0x40 + b), "imaged block: the mapped cluster holds the block's bytes");
-		} else {
-			PROP(l2e == 0, "a block that is not imaged (or all-zero) is unmapped");
-		}
+		int want = ((IN.imaged >> b) & 1) && !((IN.zero >> b) & 1), n = 0;
+		for (c = 0; c < NCL; c++)
+			if (vf_kind[c] == K_DATA && vf_dblk[c] == b && vf_ccnt[c])
+				n++;
+		PROP(n == want, "a data cluster exists for exactly the imaged non-zero blocks, one each");
 	}
-	}
-#endif
+	(void) k;
 	VF_END();
 	return 0;
 }
